@@ -533,6 +533,9 @@ Flat == [i \in 1..(5 * NN + NE) |->
                 CASE k = 0 -> ctr[n].gen [] k = 1 -> ctr[n].disc [] k = 2 -> ctr[n].proc [] k = 3 -> ctr[n].recv [] OTHER -> ctr[n].tsum
            ELSE NInside(E[i - 5 * NN])]
 ReportOutcome == (now = MaxT /\ ~Urgent) => PrintT(<<"F", cid, Flat>>)
+\* ... and the same figures at the end of EVERY instant: the real run must agree with the design at each of its
+\* end-of-instant snapshots, not only at the horizon
+ReportInstants == ~Urgent => PrintT(<<"E", cid, now, Flat>>)
 
 \* C20: finitely many actions per instant
 F_C20_FiniteInstant == steps <= MaxSteps
